@@ -21,6 +21,10 @@ Transformations (each applied to one whole file at a time):
               (only for locks the model knows as plain locks)
   reformat    the file as printed by ast.unparse (comments, blank lines and
               line breaks gone, every line number changed)
+  tempret     `return f(x)` -> `_ret_tmp = f(x); return _ret_tmp`
+  elsereturn  `if c: ...; return` REST  ->  `if c: ...; return` else: REST
+  isnot       `a is not b` -> `not a is b`, `a not in b` -> `not a in b`,
+              `while 1` -> `while True`
 
     python -m zverif.equiv [--files a.py,b.py] [--only rename,flipcmp] [--jobs N]
 """
@@ -264,10 +268,126 @@ def t_reformat(text, relpath):
     return ast.unparse(ast.parse(text))
 
 
+# ----------------------------------------------------------------- tempret
+class _TempRet(ast.NodeTransformer):
+    """`return f(x)` -> `_ret = f(x); return _ret` (not in generators'
+    lambdas; skips trivial values)."""
+
+    def _block(self, stmts):
+        out = []
+        for s_ in stmts:
+            s_ = self.visit(s_)
+            if isinstance(s_, ast.Return) and s_.value is not None and \
+                    not isinstance(s_.value, (ast.Name, ast.Constant)):
+                out.append(ast.Assign(
+                    targets=[ast.Name(id='_ret_tmp', ctx=ast.Store())],
+                    value=s_.value))
+                out.append(ast.Return(value=ast.Name(id='_ret_tmp',
+                                                     ctx=ast.Load())))
+            else:
+                out.append(s_)
+        return out
+
+    def generic_visit(self, node):
+        for field in ('body', 'orelse', 'finalbody'):
+            b = getattr(node, field, None)
+            if isinstance(b, list) and b and isinstance(b[0], ast.stmt):
+                setattr(node, field, self._block(b))
+        if isinstance(node, ast.Try):
+            for h in node.handlers:
+                h.body = self._block(h.body)
+        if isinstance(node, ast.Module):
+            return node
+        return node
+
+    def visit_Lambda(self, node):
+        return node
+
+
+def t_tempret(text, relpath):
+    tree = ast.parse(text)
+    tree.body = _TempRet()._block(tree.body)
+    return ast.unparse(ast.fix_missing_locations(tree))
+
+
+# -------------------------------------------------------------- elsereturn
+def _terminal(stmts):
+    return bool(stmts) and isinstance(stmts[-1], (ast.Return, ast.Raise,
+                                                  ast.Continue, ast.Break))
+
+
+class _ElseReturn(ast.NodeTransformer):
+    """`if c: ...; return` followed by REST  ->  `if c: ...; return` /
+    `else: REST` (REST moved into the else block)."""
+
+    def _block(self, stmts):
+        stmts = [self.visit(s_) for s_ in stmts]
+        for i, s_ in enumerate(stmts):
+            if isinstance(s_, ast.If) and not s_.orelse and _terminal(
+                    s_.body) and i + 1 < len(stmts):
+                rest = stmts[i + 1:]
+                # moving a nested def/class or a global decl changes nothing
+                # either, but keep them out to be safe
+                if any(isinstance(r, (ast.FunctionDef, ast.ClassDef,
+                                      ast.Global, ast.Nonlocal))
+                       for r in rest):
+                    continue
+                s_.orelse = rest
+                return stmts[:i + 1]
+        return stmts
+
+    def generic_visit(self, node):
+        for field in ('body', 'orelse', 'finalbody'):
+            b = getattr(node, field, None)
+            if isinstance(b, list) and b and isinstance(b[0], ast.stmt):
+                setattr(node, field, self._block(b))
+        if isinstance(node, ast.Try):
+            for h in node.handlers:
+                h.body = self._block(h.body)
+        return node
+
+    def visit_Lambda(self, node):
+        return node
+
+
+def t_elsereturn(text, relpath):
+    tree = ast.parse(text)
+    _ElseReturn().generic_visit(tree)
+    return ast.unparse(ast.fix_missing_locations(tree))
+
+
+# ------------------------------------------------------------------ isnot
+class _IsNot(ast.NodeTransformer):
+    """`a is not b` -> `not a is b`;  `a not in b` -> `not a in b`;
+    `while 1` -> `while True`."""
+
+    def visit_Compare(self, node):
+        self.generic_visit(node)
+        if len(node.ops) == 1 and isinstance(node.ops[0], (ast.IsNot,
+                                                           ast.NotIn)):
+            pos = ast.Is() if isinstance(node.ops[0], ast.IsNot) else ast.In()
+            return ast.UnaryOp(op=ast.Not(), operand=ast.Compare(
+                left=node.left, ops=[pos], comparators=node.comparators))
+        return node
+
+    def visit_While(self, node):
+        self.generic_visit(node)
+        if isinstance(node.test, ast.Constant) and node.test.value == 1 and \
+                node.test.value is not True:
+            node.test = ast.Constant(value=True)
+        return node
+
+
+def t_isnot(text, relpath):
+    return ast.unparse(ast.fix_missing_locations(
+        _IsNot().visit(ast.parse(text))))
+
+
 TRANSFORMS = {
     'reformat': t_reformat, 'rename': t_rename, 'flipcmp': t_flipcmp,
     'invertif': t_invertif, 'demorgan': t_demorgan, 'augassign': t_augassign,
-    'lockstmt': t_lockstmt,
+    'lockstmt': t_lockstmt, 'tempret': t_tempret,
+    'elsereturn': t_elsereturn, 'isnot': t_isnot,
 }
 
 
